@@ -97,15 +97,21 @@ func pathOne(osn, s string) string {
 }
 
 // Rel is the one lexical function with an unbounded loop, and Go 1.23.5's Windows filepath.Rel (and avfs' copy
-// of it) never returns on e.g. Rel(`\\a\b`, `\\a\b\`).  The oracle copy carries an exact iteration budget
-// (winfp.ErrRelLoop); avfs cannot be instrumented, so its Rel runs in a goroutine with a deadline - short when
-// the oracle has already reported the loop, long otherwise - and a call that misses it is shown as "loop"
-// (the goroutine is abandoned, it spins until the process ends; relLeaks bounds how many we accept).
-var relLeaks int
+// of it) never returns on e.g. Rel(`\\a\b`, `\\a\b\`) (known finding C13-rel-unc-root-loop).  The oracle copy
+// carries an exact iteration budget (winfp.ErrRelLoop); avfs cannot be instrumented, so its Rel runs in a
+// goroutine with a deadline and a call that misses it is shown as "loop".  An abandoned goroutine spins until
+// the process ends, so only the first maxRelLeaks inputs on which the oracle loops are really tried on avfs
+// (deadline 300 ms); on the others avfs is ASSUMED to loop as well (counted as outcome:rel-loop-assumed).
+// Where the oracle returns, avfs gets 20 s; not returning is then reported as rel=loop against the oracle's answer.
+var relLeaks, relAssumed int
 
-const maxRelLeaks = 12
+const maxRelLeaks = 4
 
 func avfsRel(v *memfs.MemFS, a, c string, oracleLoops bool) string {
+	if oracleLoops && relLeaks >= maxRelLeaks {
+		relAssumed++
+		return "loop"
+	}
 	done := make(chan string, 1)
 	go func() {
 		done <- guard(func() string { return showRel(avfs.Rel(v, a, c)) })
@@ -119,8 +125,8 @@ func avfsRel(v *memfs.MemFS, a, c string, oracleLoops bool) string {
 		return r
 	case <-time.After(d):
 		relLeaks++
-		if relLeaks > maxRelLeaks {
-			panic("avfs.Rel did not return on more than 12 inputs of this run; last: " + tok(a) + " " + tok(c))
+		if relLeaks > 3*maxRelLeaks {
+			panic("avfs.Rel did not return on too many inputs of this run; last: " + tok(a) + " " + tok(c))
 		}
 		return "loop"
 	}
@@ -245,6 +251,13 @@ func allStrings(alpha []string, n int, f func(string)) {
 	rec("", n)
 }
 
+// winVolumePrefixes: one representative (and a case/separator variant) per branch of volumeNameLen
+var winVolumePrefixes = []string{
+	`C:`, `c:`, `1:`, `é:`, `C:\`, `\`, `\\`, `\\a`, `\\a\`, `\\a\b`, `\\A\b`, `//a/b`, `\\a\b\c`,
+	`\\.`, `\\.\`, `\\.\a`, `\\.\C:`, `//./a`, `\\?`, `\\?\`, `\\?\a`, `\\?\C:`, `\??`, `\??\`, `\??\a`, `\??\C:`, `/??/a`,
+	`\\.\UNC`, `\\.\UNC\`, `\\.\UNC\a`, `\\.\UNC\a\b`, `\\.\unc\a\b`, `//./Unc/a/b`, `\\?\UNC\a\b`, `\??\UNC\a\b`, `\\.\UNCa`, `\\.x`, `\?`, `\?a`,
+}
+
 func runPath(cfg config) {
 	o := newOut(cfg.dir, cfg.name)
 	defer o.close(cfg.name)
@@ -256,6 +269,7 @@ func runPath(cfg config) {
 	}
 	o.rule = "exhaustive enumeration of all strings up to a length bound over the 13-symbol alphabet {a B . / \\ : ? * [ ] - ^ é} for the one-argument functions " +
 		"(Clean Split Dir Base IsAbs FromSlash ToSlash VolumeName VolumeNameLen Abs), all pairs up to a smaller bound for Join/Rel/Match plus pairs over focused sub-alphabets, " +
+		"for windows also every volume prefix of a fixed list (drive designators, UNC, \\\\.\\, \\\\?\\, \\??\\, \\\\.\\UNC\\ in several spellings) followed by every string of length <= 3 over {a . \\ / : ?}, and all pairs of prefix+suffix; " +
 		"PathIterator walks with ReplacePart at every position of absolute paths over {a b . /} x replacement targets; both OS types; then seeded random longer strings. " +
 		"A case is non-trivial when the function results are not all identity (distinct result vectors are counted)"
 	full := []string{"a", "B", ".", "/", "\\", ":", "?", "*", "[", "]", "-", "^", "é"}
@@ -280,6 +294,9 @@ func runPath(cfg config) {
 		if strings.Contains(obs, "rel=loop") {
 			o.count("outcome:rel-loop")
 		}
+		for ; relAssumed > 0; relAssumed-- {
+			o.count("outcome:rel-loop-assumed")
+		}
 		o.emit(line, obs, key)
 	}
 	for _, osn := range []string{"linux", "windows"} {
@@ -296,6 +313,28 @@ func runPath(cfg config) {
 					emit("one " + osn + " " + tok(s))
 				}
 			})
+		}
+		if osn == "windows" {
+			// volume prefixes the 13-symbol alphabet cannot spell (device and UNC forms, drive designators),
+			// each followed by every string of length <= 3 over {a . \ / : ?}; and all pairs of
+			// prefix+short suffix for Join/Rel
+			var tails, stails []string
+			allStrings([]string{"a", ".", "\\", "/", ":", "?"}, 3, func(s string) { tails = append(tails, s) })
+			allStrings([]string{"a", ".", "\\"}, 2, func(s string) { stails = append(stails, s) })
+			var vols []string
+			for _, pfx := range winVolumePrefixes {
+				for _, t := range tails {
+					emit("one " + osn + " " + tok(pfx+t))
+				}
+				for _, t := range stails {
+					vols = append(vols, pfx+t)
+				}
+			}
+			for _, a := range vols {
+				for _, c := range vols {
+					emit("two " + osn + " " + tok(a) + " " + tok(c))
+				}
+			}
 		}
 		// pairs
 		var small []string
